@@ -265,6 +265,13 @@ def purity_tree(idx, with_params, nested):
         if not hasattr(value, "params"):
             value.params = Parameters()
         value.params["X-P"] = "1"
+    if with_params == 2:
+        # parameters a serialiser might be tempted to "tidy up" while writing (explicit TZID=UTC next to a Z value, a
+        # VALUE that states the default, an empty and a list value): writing must leave them where the caller put them
+        value.params["TZID"] = "UTC"
+        value.params["VALUE"] = "DATE-TIME"
+        value.params["X-EMPTY"] = ""
+        value.params["X-LIST"] = ["b", "a"]
     ev[name] = value
     ev.add("uid", "u")
     if nested:
@@ -549,7 +556,7 @@ def run(ctx):
     seeds = range(8) if ctx.quick else range(64)
     ctx.rule = (f"E-hist: (A) all permutations of all subsets (<= {kmax} of 7) of distinct property names on 5 component kinds; "
                 "(A') all 144 insertion orders of a 4-level nested tree (calendar > event > alarm > unknown component) serialised with sorting on and off; (B) all permutations of all subsets (<=4) of 7 parameters; (C) all 120 interleavings of 3 repeated values (also with falsy first/last values: empty text, integer 0) / 3 "
-                "subcomponents with 2 other properties; (D) purity on a 28-value-class menu x params x nesting x sorted flag; "
+                "subcomponents with 2 other properties; (D) purity on a 28-value-class menu x {no params, a parameter, parameters a writer might tidy up: TZID=UTC / VALUE / empty / list} x nesting x sorted flag; "
                 f"(E) BEGIN/END balance of every output; (F) {len(seeds)} PYTHONHASHSEED values, one digest over ~250 trees each. "
                 "non-trivial = at least two names/parameters or any repeated/purity case.")
     ctx.bounds = {"max_subset": kmax, "pool": 7, "hash_seeds": len(seeds)}
@@ -571,7 +578,7 @@ def run(ctx):
             for pa in itertools.permutations(range(len(NEST_ALARM))):
                 yield ("nested", pe, pa)
         for idx in range(nvals):
-            for wp in (False, True):
+            for wp in (False, True, 2):
                 for nested in (False, True):
                     for srt in (True, False):
                         yield ("purity", idx, wp, nested, srt)
